@@ -138,7 +138,8 @@ _dispatch_data_destroy_buffer(const void* buffer, size_t size,
 		mach_vm_address_t vm_addr = (uintptr_t)buffer;
 		mach_vm_deallocate(mach_task_self(), vm_addr, vm_size);
 #else
-		(void)size;
+	} else if (destructor == DISPATCH_DATA_DESTRUCTOR_MUNMAP) {
+		munmap((void*)buffer, size);
 #endif
 	} else {
 		if (!queue) {
